@@ -753,13 +753,14 @@ pub struct Gen<'a> {
     n_lets: u32,
     n_lambdas: u32,
     in_inline_body: bool,
+    suppress_tail: bool,
 }
 
 type Scope = Vec<(String, Ty)>;
 
 impl<'a> Gen<'a> {
     pub fn new(rng: &'a mut Rng, cfg: GenCfg) -> Gen<'a> {
-        Gen { rng, cfg, funs: vec![], consts: vec![], macs: vec![], ctr: 0, in_macro_arg: false, in_const: false, in_nested_mod: false, in_fun_body: false, in_call_arg: 0, n_lets: 0, n_lambdas: 0, in_inline_body: false }
+        Gen { rng, cfg, funs: vec![], consts: vec![], macs: vec![], ctr: 0, in_macro_arg: false, in_const: false, in_nested_mod: false, in_fun_body: false, in_call_arg: 0, n_lets: 0, n_lambdas: 0, in_inline_body: false, suppress_tail: false }
     }
 
     fn fresh(&mut self, prefix: &str) -> String {
@@ -806,7 +807,7 @@ impl<'a> Gen<'a> {
         }
         // dotted tail?
         let mut tail = Pat::Nil;
-        if items.len() >= 2 && self.rng.chance(1, 5) {
+        if items.len() >= 2 && self.rng.chance(1, 5) && !self.suppress_tail {
             if let Some(Pat::Var(n, _)) = items.last().cloned() {
                 items.pop();
                 tail = Pat::Var(n, if self.rng.chance(1, 2) { Ty::List } else { Ty::Any });
@@ -864,6 +865,11 @@ impl<'a> Gen<'a> {
                     if b == [0] {
                         b = vec![1];
                     }
+                }
+                // the untyped dialects read a hex literal made only of printable ASCII as the
+                // identifier it spells (0x40 is '@'): never generated
+                if b.iter().all(|c| (33..=126).contains(c)) {
+                    b.insert(0, 0x01);
                 }
                 Expr::Lit(Lit::Hex(b))
             }
@@ -1155,7 +1161,7 @@ impl<'a> Gen<'a> {
                 let n = 1 + self.rng.below(3);
                 let mut q = QQ::Data(V::nil());
                 for _ in 0..n {
-                    let item = if self.rng.chance(1, 2) { QQ::Unquote(self.gen_expr(Ty::Int, d, scope)) } else { QQ::Data(V::int({ let x = self.rng.range(0, 300); if x == 64 || x == 113 { 65 } else { x } })) };
+                    let item = if self.rng.chance(1, 2) { QQ::Unquote(self.gen_expr(Ty::Int, d, scope)) } else { QQ::Data(V::int({ let x = self.rng.range(0, 300); if x == 64 || x == 113 || x == 1 { 65 } else { x } })) };
                     q = QQ::Cons(Box::new(item), Box::new(q));
                 }
                 Expr::QQ(Box::new(q))
@@ -1430,7 +1436,11 @@ impl<'a> Gen<'a> {
         // known finding: destructuring (nested) parameters of inline functions are mis-resolved
         // ("Lookup for argument N that wasn't passed", wrong paths, unbounded recursion)
         let nested_ok = !(inline && self.cfg.avoid_known);
+        // known finding (classic): an inline function is a macro there; arguments collected by a
+        // dotted tail parameter are spliced as a *form* and then compiled as a call
+        self.suppress_tail = inline && self.cfg.classic_ints && self.cfg.avoid_known;
         let params = self.gen_params_ex(np, &format!("P{idx}_"), !inline, nested_ok);
+        self.suppress_tail = false;
         let mut scope: Scope = vec![];
         params.vars(&mut scope);
         // known finding: (@ name pattern) parameters together with let/assign forms in the same body
